@@ -14,6 +14,9 @@ structure Inst where
   id : Bytes
   seq : Nat
   ref : Bytes
+  /-- layout only: the reference element is written before the SEQUENCE-NUMBER element (the
+      order of the two children inside an instance does not matter to the loader) -/
+  refFirst : Bool := false
   deriving DecidableEq, Repr
 
 structure PduDoc where
@@ -190,13 +193,24 @@ def textElem (t : Tag) (s : Bytes) : List XmlEv :=
 /-- ASCII decimal digits -/
 def digits (n : Nat) : Bytes := decimalBytes n
 
+/-- in tests/dlt-messages.xml a signal instance has its SEQUENCE-NUMBER first ... -/
 def renderSigInst (i : Inst) : List XmlEv :=
-  [.start .SIGNAL_INSTANCE (idAttr i.id)] ++ textElem .SEQUENCE_NUMBER (digits i.seq)
-    ++ [.empty .SIGNAL_REF (idRefAttr i.ref), .end_ .SIGNAL_INSTANCE]
+  if i.refFirst then
+    [.start .SIGNAL_INSTANCE (idAttr i.id), .empty .SIGNAL_REF (idRefAttr i.ref)]
+      ++ textElem .SEQUENCE_NUMBER (digits i.seq) ++ [.end_ .SIGNAL_INSTANCE]
+  else
+    [.start .SIGNAL_INSTANCE (idAttr i.id)] ++ textElem .SEQUENCE_NUMBER (digits i.seq)
+      ++ [.empty .SIGNAL_REF (idRefAttr i.ref), .end_ .SIGNAL_INSTANCE]
 
+/-- ... and a PDU instance its PDU-REF first (`refFirst = false` is that file's order for
+    either kind) -/
 def renderPduInst (i : Inst) : List XmlEv :=
-  [.start .PDU_INSTANCE (idAttr i.id), .empty .PDU_REF (idRefAttr i.ref)]
-    ++ textElem .SEQUENCE_NUMBER (digits i.seq) ++ [.end_ .PDU_INSTANCE]
+  if i.refFirst then
+    [.start .PDU_INSTANCE (idAttr i.id)] ++ textElem .SEQUENCE_NUMBER (digits i.seq)
+      ++ [.empty .PDU_REF (idRefAttr i.ref), .end_ .PDU_INSTANCE]
+  else
+    [.start .PDU_INSTANCE (idAttr i.id), .empty .PDU_REF (idRefAttr i.ref)]
+      ++ textElem .SEQUENCE_NUMBER (digits i.seq) ++ [.end_ .PDU_INSTANCE]
 
 /-- "OTHER" -/
 def OTHER : Bytes := [0x4F#8, 0x54#8, 0x48#8, 0x45#8, 0x52#8]
@@ -254,6 +268,23 @@ def renderElem : Elem → List XmlEv
 def render (d : FileDoc) : List XmlEv :=
   [.other, .start .other [.ok [0x78#8] (some [0x79#8])], .start .other []]
     ++ (d.map renderElem).flatten ++ [.end_ .other, .end_ .other]
+
+/-- what may stand between the elements of a file without meaning anything to a loader:
+    comments, processing instructions, CDATA (`other`), white space or any other text, and
+    unknown elements -/
+def isGap : XmlEv → Bool
+  | .other => true
+  | .text _ => true
+  | .start .other _ => true
+  | .empty .other _ => true
+  | .end_ .other => true
+  | _ => false
+
+/-- a file with such events in front of every element (pretty-printed files, comments,
+    vendor elements between the known ones) and before the end -/
+def renderGapped (d : List (List XmlEv × Elem)) (tail : List XmlEv) : List XmlEv :=
+  [.other, .start .other [.ok [0x78#8] (some [0x79#8])], .start .other []]
+    ++ (d.map fun x => x.1 ++ renderElem x.2).flatten ++ tail ++ [.end_ .other, .end_ .other]
 
 -- documents the layout above can express ----------------------------------------------
 
